@@ -308,6 +308,18 @@ package tan
 //@ func (d *db) importSnapshot [C20]
 //@ trusted writes the records of the import into the log (no fsync)
 //@ ghostset gUnsynced := true
+// C20 (after the import the replica holds the imported snapshot and nothing newer, also after a restart that
+// replays the log): replacing a replica's history FIRST switches to a fresh log file -- the MANIFEST then
+// drops every older file -- so the imported records never share a log file with the replica's old, higher-indexed
+// records, which a replay of that file would resurrect
+//@ func (d *db) doWriteLocked [C20]
+//@ trusted appends the record to the current log file and indexes it (its parts are under contract for C04/C09)
+//@ func (d *db) installSnapshot [C20]
+//@ noframe
+//@ nobounds
+//@ requires !gWriteFailed && !gReadFailed && !gDirDirty && gDirHandles[obj(d.dataDir)] && !gDirHandles[obj(d.mu.versions.manifestFile)]
+//@ modifies gNewLogs, gWriteFailed, gDirDirty, gDataSynced, held(d.mu)
+//@ ensures result == nil ==> gNewLogs == old(gNewLogs) + 1
 //@ func (l *LogDB) ImportSnapshot [C20 C04]
 //@ noframe
 //@ nobounds
@@ -338,9 +350,12 @@ package tan
 // clean directory) -- otherwise a crash leaves a MANIFEST pointing at a file that does not exist
 //@ func prealloc [C10]
 //@ trusted preallocates space for the log file (no effect on names or data)
+// gNewLogs: how many times the db has switched to a fresh log file
+//@ ghost var gNewLogs int
 //@ func (d *db) createNewLog [C20 C10 C04]
 //@ noframe
 //@ nobounds
+//@ ghostset gNewLogs := old(gNewLogs) + ite(result == nil, 1, 0)
 //@ requires !gWriteFailed && !gReadFailed && !gDirDirty && gDirHandles[obj(d.dataDir)] && !gDirHandles[obj(d.mu.versions.manifestFile)]
 //@ modifies gWriteFailed, gDirDirty, gDataSynced
 //@ ensures result == nil ==> !gDirDirty && !gWriteFailed && !gReadFailed
@@ -361,6 +376,8 @@ package tan
 //@ func (d *db) removeAllLocked [C20]
 //@ noframe
 //@ nobounds
+//@ modifies gNewLogs, gWriteFailed, gDirDirty, gDataSynced
+//@ ensures result == nil && newLog ==> gNewLogs == old(gNewLogs) + 1
 //@ requires !gWriteFailed && !gReadFailed && !gDirDirty && gDirHandles[obj(d.dataDir)] && !gDirHandles[obj(d.mu.versions.manifestFile)]
 //@ loop 1 invariant ve.deletedFiles != nil && fresh(ve.deletedFiles) && (forall fn fileNum :: visited(fn) && fn != d.mu.versions.manifestFileNum && fn != d.mu.logNum ==> mk(deletedFileEntry, fn) in ve.deletedFiles)
 
